@@ -19,7 +19,8 @@ RULE = ('a case = a generated host program (1-3 modules + optionally a second di
         'threads (sys.settrace via rig.run_traced, or threading.settrace + threads started afterwards under a forced '
         'schedule) x 3-9 tracepoints built through convert_response (protobuf) and build_trigger (registered): on '
         'executed lines, several on one line, def line vs first body line, never-executed / comment / beyond-EOF '
-        'lines, another file, method tracepoints (method_name) on functions that exist in several files, on the '
+        'lines, another file, unmatchable ones (method tracepoint without method_name on a module compiled from a '
+        'string: source not available, a fifth of the programs) next to ordinary ones, method tracepoints (method_name) on functions that exist in several files, on the '
         'generator and on the method; kinds snapshot / snapshot+log / log / metric / span line / span method; '
         'fire_count=-1 fire_period=0; a quarter of the single-effect tracepoints have a scripted condition '
         '(arbitrary allow/deny per hit). Non-trivial = at least one effect produced and at least one tracepoint '
@@ -62,11 +63,11 @@ def mk_tp(rng, n, path, line, kind, via, method=None, scripted=False):
     return tp
 
 
-def gen_tps(rng, prog, entries):
+def gen_tps(rng, prog, entries, nosource=()):
     meta = prog['meta']
     mods = [m for m in meta['mods'] if m != 'm0x']
     tps = []
-    ex_lines, ex_calls = th.executed(prog['files'], entries)
+    ex_lines, ex_calls = th.executed(prog['files'], entries, nosource)
     ex_lines = [(os.path.basename(f), l) for f, l in ex_lines]
     ex_calls = [(os.path.basename(f), fn) for f, fn in ex_calls]
 
@@ -75,6 +76,14 @@ def gen_tps(rng, prog, entries):
                          method=method, scripted=rng.random() < 0.25))
 
     n = rng.randint(3, 9)
+    for rel in nosource:
+        # unmatchable tracepoints (span=method, no method_name) on the source-less file, through both routes and at
+        # both ends of the configuration, next to the ordinary ones
+        for via in (['resp'], ['custom'], ['resp', 'custom'])[rng.randrange(3)]:
+            tp = mk_tp(rng, len(tps), os.path.basename(rel), 0, 'span', via)
+            tp['args']['span'] = 'method'
+            tp['unmatchable'] = True
+            tps.append(tp)
     while len(tps) < n:
         m = rng.choice(mods)
         info = meta['lines'][m]
@@ -116,7 +125,16 @@ def gen_case(rng, tier, threads=None):
                           sync=(mode == 'threads'), big=(tier == 'thorough' and rng.random() < 0.3))
     mods = [m for m in prog['meta']['mods'] if m != 'm0x']
     entries = [[rng.choice(prog['meta']['mods']), 'f0', rng.randint(0, 3)] for _ in range(nthreads)]
-    tps = gen_tps(rng, prog, entries)
+    # a fifth of the programs have one module whose source is not available (compiled from a string)
+    nosource = [prog['meta']['relpaths'][rng.choice(mods)]] if rng.random() < 0.2 else []
+    tps = gen_tps(rng, prog, entries, nosource)
+    if nosource and rng.random() < 0.5:
+        rng.shuffle(tps)
+        for i, tp in enumerate(tps):
+            old = tp['id']
+            tp['id'] = 'tp%d' % i
+            if tp.get('scripted'):
+                tp['args']['condition'] = "_dec('%s')" % tp['id']
     scripts = {}
     for t in range(nthreads):
         scripts['T%d' % t] = {tp['id']: [rng.random() < 0.6 for _ in range(rng.randint(0, 6))]
@@ -124,6 +142,8 @@ def gen_case(rng, tier, threads=None):
     case = {'kind': 'prog', 'mode': mode, 'files': prog['files'], 'entries': entries, 'tps': tps,
             'scripts': scripts, 'sched': [rng.randrange(nthreads) for _ in range(rng.randint(0, 12))],
             'model_seed': rng.randrange(10 ** 6)}
+    if nosource:
+        case['nosource'] = nosource
     return case
 
 
@@ -153,6 +173,19 @@ def corpus():
                  {'id': 'tp3', 'path': 'm0.py', 'line': 1, 'args': u, 'metrics': [], 'via': 'resp'},
                  {'id': 'tp4', 'path': 'm0.py', 'line': 0, 'args': dict(u, method_name='f', snapshot='no_collect',
                                                                      log_msg='in f'), 'metrics': [], 'via': 'resp'}]},
+        # the source of the file is not available (compiled from a string): a method tracepoint without a method name
+        # cannot be matched (at_location raises on every event of the file); the ordinary tracepoints before and
+        # after it, from the response and registered, act as if it were not there
+        {'kind': 'prog', 'mode': 'sys', 'files': {'m0.py': src}, 'nosource': ['m0.py'], 'entries': [['m0', 'g', 1]],
+         'scripts': {}, 'sched': [], 'model_seed': 4,
+         'tps': [{'id': 'tp0', 'path': 'm0.py', 'line': 0, 'args': dict(u, span='method', snapshot='no_collect'),
+                  'metrics': [], 'via': 'resp', 'unmatchable': True},
+                 {'id': 'tp1', 'path': 'm0.py', 'line': 2, 'args': dict(u, log_msg='x'), 'metrics': [], 'via': 'resp'},
+                 {'id': 'tp2', 'path': 'm0.py', 'line': 0, 'args': dict(u, span='method', snapshot='no_collect'),
+                  'metrics': [], 'via': 'custom', 'unmatchable': True},
+                 {'id': 'tp3', 'path': 'm0.py', 'line': 2, 'args': u, 'metrics': [], 'via': 'custom'},
+                 {'id': 'tp4', 'path': 'm0.py', 'line': 0, 'args': dict(u, method_name='f', snapshot='no_collect',
+                                                                     log_msg='in f'), 'metrics': [], 'via': 'custom'}]},
         # no tracepoint at all; and only never-reached ones
         {'kind': 'prog', 'mode': 'sys', 'files': {'m0.py': src}, 'entries': [['m0', 'g', 1]], 'scripts': {},
          'sched': [], 'model_seed': 2, 'tps': []},
@@ -256,7 +289,8 @@ def label(case, obs):
     if 'raised' in obs:
         return 'raised'
     n = sum(len([o for o in e if o['kind'] in FIRED]) for e in obs['effects'].values())
-    return '%s/%dthr/%s' % (case['mode'], len(case['entries']), 'none' if n == 0 else 'few' if n < 6 else 'many')
+    return '%s%s/%dthr/%s' % (case['mode'], '/nosource' if case.get('nosource') else '', len(case['entries']),
+                              'none' if n == 0 else 'few' if n < 6 else 'many')
 
 
 def nontrivial(case, obs):
